@@ -72,7 +72,13 @@ func (im *impl) mkVote(idx int, addr []byte, h, r int64, t byte, bid types.Block
 	parts := strings.Split(spec, ".")
 	k, _ := strconv.Atoi(parts[0])
 	salt, _ := strconv.Atoi(parts[1])
-	sig := im.keys[k%len(im.keys)].Sign(types.SignBytes(chainID, v)).(crypto.SignatureEd25519)
+	signed := v
+	if salt == 1000 { // a signature lifted from the same validator's vote for the block id `hash,1,bb`: same header hash, other parts
+		c := *v
+		c.BlockID.PartsHeader = types.PartSetHeader{Total: 1, Hash: []byte{0xbb}}
+		signed, salt = &c, 0
+	}
+	sig := im.keys[k%len(im.keys)].Sign(types.SignBytes(chainID, signed)).(crypto.SignatureEd25519)
 	if salt != 0 {
 		sig[salt%len(sig)] ^= 0x40
 	}
@@ -550,8 +556,10 @@ func genVerifyCommit(r *vh.Run, im *impl, do func(string) string, h, rd int64, n
 		"otherkey": fmt.Sprintf("%d,%s,%d,%d,2,%s,%d.0", i, addr(i), h, rd, bc, (i+1)%n),
 		"otherbid": fmt.Sprintf("%d,%s,%d,%d,2,%s,%d.0", i, addr(i), h, rd, "cc,2,dd", i),
 		"nilbid":   fmt.Sprintf("%d,%s,%d,%d,2,%s,%d.0", i, addr(i), h, rd, "-,0,-", i),
+		// the vote names another part set of the same header hash and carries the signature of the genuine vote
+		"relabel": fmt.Sprintf("%d,%s,%d,%d,2,%s,%d.1000", i, addr(i), h, rd, "aa,2,cc", i),
 	}
-	names := []string{"height", "round", "type", "sig", "otherkey", "otherbid", "nilbid"}
+	names := []string{"height", "round", "type", "sig", "otherkey", "otherbid", "nilbid", "relabel", "relabel"}
 	nm := names[R.Intn(len(names))]
 	first := 0
 	for first < n && slots[first] == "-" {
@@ -569,6 +577,23 @@ func genVerifyCommit(r *vh.Run, im *impl, do func(string) string, h, rd int64, n
 	rest := signed - v.VotingPower
 	if res2 == "ok" && rest*3 <= total*2 {
 		r.Fail(vh.Failure{Class: "verifycommit-accepts-tampered-" + nm, Detail: "VerifyCommit accepts a commit that reaches 2/3 only by counting a tampered precommit", Ops: []string{newOp, op}, Got: res2, Want: "an error"})
+	}
+	// every slot behind the first genuine precommit relabelled (same header hash, other parts, lifted signatures):
+	// the commit then proves the first validator's vote only
+	if first < n {
+		s3 := append([]string{}, slots...)
+		for j := first + 1; j < n; j++ {
+			if slots[j] != "-" {
+				s3[j] = fmt.Sprintf("%d,%s,%d,%d,2,%s,%d.1000", j, addr(j), h, rd, "aa,2,cc", j)
+			}
+		}
+		op3 := fmt.Sprintf("verifyc %s %d %s", b, h, strings.Join(s3, " "))
+		res3 := do(op3)
+		r.Count("verifyc.relabel-all." + res3)
+		_, v0 := im.vals.GetByIndex(first)
+		if res3 == "ok" && v0.VotingPower*3 <= total*2 {
+			r.Fail(vh.Failure{Class: "verifycommit-accepts-relabelled-precommits", Detail: "VerifyCommit accepts a commit in which all precommits but one name another part set than the one they were signed for", Ops: []string{newOp, op3}, Got: res3, Want: "an error"})
+		}
 	}
 	// extra: wrong size, wrong commit height
 	if R.Chance(30) {
